@@ -128,7 +128,7 @@ reset_instance!(vs_pim_stray_syn_established, VirtualSocketState::Established, f
 
 // @verif id=VS.pim.state props=C17,C04,C05,C10 tier=quick timeout=900
 // @functions VirtualSocket::process_incoming_message (ST_STATE), Segments::remove_up_to_ack (empty queue), SegmentSizes::on_payload_delivered, Recovery::on_ack, MockCc
-// @bounds states Established, FinWait2, SynAckSent, FinWait1, LastAck (own FIN = OUR_SEQ-1); ST_STATE with ANY seq_nr, ack_nr, window, timestamp; nothing in flight
+// @bounds states Established, FinWait2, SynAckSent (own initial sequence number ANY u16), FinWait1, LastAck (own FIN = OUR_SEQ-1 = 65533); ST_STATE with ANY seq_nr, ack_nr, window, timestamp; nothing in flight
 // @asserts never an error, never a datagram; peer window and timestamp recorded verbatim and handed to the controller; receive-side position untouched (a state packet consumes nothing); transitions: SynAckSent -> Established iff it acknowledges our SYN-ACK number; FinWait1 -> FinWait2 (or Closed for the STATE-as-FIN quirk) iff it acknowledges our FIN; LastAck -> Closed iff it acknowledges our FIN; all other cases keep the state
 // @unwindset make_tx_at=9,__vs::record=37
 crate::verif_tier_c! {
@@ -138,6 +138,10 @@ fn vs_pim_state_packet() {
     let st = any_state_with(our_fin, PEER_LAST);
     kani::assume(!matches!(st, VirtualSocketState::SynReceived | VirtualSocketState::Closed));
     let mut t = make_vsock(st, VsConfig::default());
+    // handshake: our own initial sequence number is ANY u16 (nothing is in flight yet)
+    let my_isn: u16 = if matches!(st, VirtualSocketState::SynAckSent { .. }) { kani::any() } else { OUR_SEQ };
+    t.vsock.seq_nr = SeqNr(my_isn);
+    t.vsock.last_sent_seq_nr = SeqNr(my_isn.wrapping_sub(1));
     let (seq, ack): (u16, u16) = (kani::any(), kani::any());
     let h = hdr(Type::ST_STATE, seq, ack);
     let w = cx_waker();
@@ -148,7 +152,8 @@ fn vs_pim_state_packet() {
     assert!(ok, "C10: a state packet never produces an error");
     assert!(sent_n() == 0, "C07: a bare state packet is not answered");
     assert!(t.vsock.last_consumed_remote_seq_nr == SeqNr(PEER_LAST), "C04: a state packet consumes no sequence number");
-    let acks_synack = ack == OUR_SEQ.wrapping_sub(1);
+    let acks_synack = ack == my_isn.wrapping_sub(1);
+    kani::cover!(matches!(st, VirtualSocketState::SynAckSent { .. }) && my_isn == 0 && acks_synack, "handshake completes with initial sequence number 0");
     let acks_fin = ack == our_fin;
     let dropped = matches!(st, VirtualSocketState::SynAckSent { .. }) && !acks_synack;
     if !dropped {
@@ -395,12 +400,16 @@ fn vs_pim_data_packet() {
 
 // ---- cumulative ACK of in-flight data: ring truncation and writer wake-up ---------------------------
 
-// shared body of VS.pam.ack / VS.pam.dup
+// shared body of VS.pam.ack / VS.pam.dup / VS.pam.ack2
 fn ack_frees_step(dup_data: bool) {
+    ack_frees_step_sized(dup_data, 6, 4)
+}
+/// `fill` bytes buffered, one in-flight segment of `seg` bytes
+fn ack_frees_step_sized(dup_data: bool, fill: usize, seg: usize) {
     use crate::stream_tx_segments::verif_stream_tx_segments__seg::segments_with;
-    let mut t = make_vsock(VirtualSocketState::Established, VsConfig { link_mtu: 52, rx_buf: 12, nagle: true, ring: (8, 3, 6), tx_max: 8 });
+    let mut t = make_vsock(VirtualSocketState::Established, VsConfig { link_mtu: 52, rx_buf: 12, nagle: true, ring: (8, 3, fill), tx_max: 8 });
     {
-        let old = std::mem::replace(&mut t.vsock.user_tx_segments, segments_with::<1>(OUR_SEQ, [4], 0b1, 9_900, false));
+        let old = std::mem::replace(&mut t.vsock.user_tx_segments, segments_with::<1>(OUR_SEQ, [seg], 0b1, 9_900, false));
         std::mem::forget(old);
     }
     t.vsock.last_sent_seq_nr = SeqNr(OUR_SEQ);
@@ -423,12 +432,12 @@ fn ack_frees_step(dup_data: bool) {
         use ringbuf::traits::Consumer;
         let c = t.vsock.user_tx.consumer.lock();
         let (a, b) = c.as_slices();
-        assert!(a.len() + b.len() == 2, "C19: exactly the acknowledged bytes are released from the send buffer");
+        assert!(a.len() + b.len() == fill - seg, "C19: exactly the acknowledged bytes are released from the send buffer");
         let first = if a.len() > 0 { a[0] } else { b[0] };
-        assert!(first == t.ring_model[4], "C01: the unacknowledged bytes keep their content and order");
+        assert!(first == t.ring_model[seg], "C01: the unacknowledged bytes keep their content and order");
     }
     assert!(crate::verif_lib__support::wakes(W_WRITER) == 1, "C19: a blocked writer is woken as soon as acknowledgements free space");
-    assert!(unsafe { CC_ACKED } == 4, "C15: the controller is credited with the acknowledged bytes");
+    assert!(unsafe { CC_ACKED } == seg, "C15: the controller is credited with the acknowledged bytes");
     assert!(t.vsock.rto_retransmissions == 0, "C05: new data acknowledged ends the single-segment RTO mode");
     assert!(t.vsock.timers.retransmit == Timer::Idle, "C06: with nothing outstanding the retransmission timer stops");
     assert!(t.vsock.last_remote_window == h.wnd_size, "C05: advertised window recorded");
@@ -445,6 +454,18 @@ crate::verif_tier_c! {
 #[kani::unwind(6)]
 fn vs_ack_frees_buffer_and_wakes_writer() {
     ack_frees_step(false);
+}
+}
+
+// @verif id=VS.pam.ack2 props=C19,C02 tier=quick timeout=1500 mem=16
+// @functions VirtualSocket::process_all_incoming_messages, UserTx::truncate_front
+// @bounds as VS.pam.ack, but the send buffer is completely FULL (8 of 8 bytes) and the acknowledged segment is only 2 bytes (less than one MSS of 4)
+// @asserts the blocked writer is woken although the freed space is smaller than a segment (woken as soon as acknowledgements free space); 6 bytes stay buffered
+// @unwindset make_tx_at=9,__vs::record=37
+crate::verif_tier_c! {
+#[kani::unwind(6)]
+fn vs_small_ack_still_wakes_blocked_writer() {
+    ack_frees_step_sized(false, 8, 2);
 }
 }
 
